@@ -1257,3 +1257,107 @@ func TestC16Silent(t *testing.T) {
 		kit.Record("C16", "silent|"+string(kit.MustJSON(kase)), true, func() interface{} { return kase }, "silent-peer-with-busy-application")
 	})
 }
+
+// TestC16Large: resynchronisation does not depend on how much there is to resynchronise.
+// The monitored tables hold more rows (66000 and 1200) than any bounded buffer of the client
+// holds entries (the cache's event buffer has 65536, and nothing drains it while the
+// monitors are restarted); the connection is cut, rows are deleted and inserted meanwhile,
+// and the cache must converge as for a small database.
+func TestC16Large(t *testing.T) {
+	w := c16World(t)
+	srv, err := kit.StartServer(w)
+	if err != nil {
+		t.Fatalf("server: %v", err)
+	}
+	defer srv.Close()
+	px, err := kit.StartProxy(srv.Sock)
+	if err != nil {
+		t.Fatalf("proxy: %v", err)
+	}
+	defer px.Close()
+	writer, err := kit.DialRaw(srv.Sock)
+	if err != nil {
+		t.Fatal(err)
+	}
+	defer writer.Close()
+	const big, small = 66000, 1200
+	kase := map[string]interface{}{"rowsT2": big, "rowsT0": small}
+	fail := func(class, format string, args ...interface{}) {
+		kit.Fail(t, "C16", class, kase, format, args...)
+	}
+	send := func(ops []json.RawMessage) {
+		if reply, err := writer.Transact("DB", ops); err != nil || strings.Contains(string(reply), `"error"`) {
+			t.Fatalf("harness: %.300s %v", reply, err)
+		}
+	}
+	for i := 0; i < big; i += 3000 {
+		var ops []json.RawMessage
+		for j := i; j < i+3000 && j < big; j++ {
+			ops = append(ops, json.RawMessage(fmt.Sprintf(`{"op":"insert","table":"T2","uuid":"%s","row":{"v":%d.5}}`, kit.MkUUID(100000+j), j)))
+		}
+		send(ops)
+	}
+	var ops []json.RawMessage
+	for j := 0; j < small; j++ {
+		ops = append(ops, json.RawMessage(fmt.Sprintf(`{"op":"insert","table":"T0","uuid":"%s","row":{"marker":"m%d","n":%d}}`, kit.MkUUID(1+j), j, j)))
+	}
+	send(ops)
+	bg := context.Background()
+	c, err := kit.NewClient(w, px.Endpoint(), client.WithReconnect(10*time.Second, backoff.NewConstantBackOff(5*time.Millisecond)))
+	if err != nil {
+		t.Fatal(err)
+	}
+	if err := c.Connect(bg); err != nil {
+		t.Fatal(err)
+	}
+	defer func() { go c.Close() }()
+	mons := []monSpec{{Method: ovsdb.ConditionalMonitorSinceRPC, Tables: map[string][]string{"T2": nil}}, {Method: ovsdb.MonitorRPC, Tables: map[string][]string{"T0": nil}}}
+	for _, ms := range mons {
+		ctx, cancel := context.WithTimeout(bg, 60*time.Second)
+		_, err := c.Monitor(ctx, buildMonitor(w, c, ms))
+		cancel()
+		if err != nil {
+			fail("monitor.error", "Monitor of a large table: %v", err)
+		}
+	}
+	for round := 1; round <= 2; round++ {
+		px.CutAll()
+		send([]json.RawMessage{
+			json.RawMessage(fmt.Sprintf(`{"op":"delete","table":"T2","where":[["_uuid","==",["uuid","%s"]]]}`, kit.MkUUID(100000+round))),
+			json.RawMessage(fmt.Sprintf(`{"op":"insert","table":"T2","row":{"v":-%d.25}}`, round)),
+			json.RawMessage(fmt.Sprintf(`{"op":"delete","table":"T0","where":[["_uuid","==",["uuid","%s"]]]}`, kit.MkUUID(round))),
+			json.RawMessage(fmt.Sprintf(`{"op":"insert","table":"T0","row":{"marker":"while-away-%d"}}`, round)),
+		})
+		kase["round"] = round
+		var diffs []string
+		ok, stacks := watchdog(120*time.Second, func() {
+			deadline := time.Now().Add(60 * time.Second)
+			for {
+				diffs = nil
+				if c.Connected() && c.Cache() != nil {
+					db, err := srv.Snapshot()
+					if err != nil {
+						t.Fatalf("snapshot: %v", err)
+					}
+					diffs = compareAll(w, c, db, mons)
+				} else {
+					diffs = []string{"client not connected"}
+				}
+				if len(diffs) == 0 || time.Now().After(deadline) {
+					return
+				}
+				time.Sleep(50 * time.Millisecond)
+			}
+		})
+		if !ok {
+			fail("resync.hang", "reading the client's state 120 s after the cut does not return\n%s", firstBlocked(stacks))
+		}
+		if len(diffs) > 0 {
+			if len(diffs) > 8 {
+				diffs = append(diffs[:8], fmt.Sprintf("... and %d more", len(diffs)-8))
+			}
+			fail("resync.cache-differs", "round %d: 60 s after the cut the client has not converged to the database (%d + %d rows monitored):\n%s", round, big, small, strings.Join(diffs, "\n"))
+		}
+	}
+	kit.Record("C16", "large|66000+1200", true, func() interface{} { return kase }, "large-database")
+}
